@@ -246,6 +246,27 @@ def _literal_bytes(body):
     return lits
 
 
+def scan_loop(b):
+    """The single scan loop of a scanner: `loop { .. cursor += 1 }`, or `for cursor in a..b` / `(a..b).rev()` (one byte per
+    iteration by construction).  Returns dict(form, node, body, var, lo, hi, rev) or None."""
+    loops = [n for n in T.nodes(b["tree"]) if n.get("k") in ("loop", "for")]
+    if len(loops) != 1:
+        return None
+    n = loops[0]
+    if n["k"] == "loop":
+        return {"form": "loop", "node": n, "body": n["body"], "var": None}
+    it = T.peel(n["iter"])
+    rev = False
+    if it.get("k") == "mcall" and it["name"] == "rev" and not it["args"]:
+        rev = True
+        it = T.peel(it["recv"])
+    if it.get("k") != "struct" or "Range" not in (it["res"].get("path") or it.get("ty") or "") or n["pat"]["p"] != "bind":
+        return None
+    f = {x["name"]: x["e"] for x in it["fields"]}
+    return {"form": "for", "node": n, "body": n["body"], "var": n["pat"], "lo": f.get("start"), "hi": f.get("end"), "rev": rev,
+            "inclusive": "Inclusive" in (it["res"].get("path") or it.get("ty") or "")}
+
+
 def scanner_tables(ctx, res, rule):
     """Composite table (byte class, char boundary, pause flag) -> {advance, found, stop} of each scanner loop."""
     P = ctx.lib
@@ -259,11 +280,11 @@ def scanner_tables(ctx, res, rule):
         b = P.fn(fname)
         cb = P.fn(chk)
         fn = fshort(b)
-        loops = [n for n in T.nodes(b["tree"], "loop")]
-        if len(loops) != 1:
-            res.cannot(rule, fn, "loop", "expected exactly one scan loop", T.loc(b["tree"]))
+        sl = scan_loop(b)
+        if sl is None:
+            res.cannot(rule, fn, "loop", "expected exactly one scan loop (`loop` with a cursor, or `for` over a range / reversed range)", T.loc(b["tree"]))
             continue
-        loop = loops[0]
+        loop = sl["node"]
         lits = _literal_bytes(cb) | {32, 9, 10}
         classes = [A.Lit(x, "byte") for x in sorted(lits)] + [A.CharClass(None, excluded=lits), None]
         cursor_name = None
@@ -284,6 +305,8 @@ def scanner_tables(ctx, res, rule):
                                     env[p["pat"]["id"]] = A.Lit(pause)
                                 else:
                                     env[p["pat"]["id"]] = A.Sym(p["pat"]["name"], p["ty"])
+                        if sl["var"] is not None:
+                            env[sl["var"]["id"]] = A.Sym(sl["var"]["name"], "usize")
                         J.last_env = env
                         return J.ev(loop["body"], env)
                     try:
@@ -293,11 +316,7 @@ def scanner_tables(ctx, res, rule):
                         outs = []
                     cname_ = A.show(cls) if cls is not None else "<out of range>"
                     for o in outs:
-                        # examined position = index handed to bytes.get on this path (if any)
-                        ex = None
-                        for e in o["effects"]:
-                            pass
-                        if o["exit"] == "break" and isinstance(o["value"], A.Variant) and o["value"].name == "Some":
+                        if o["exit"] in ("break", "return") and isinstance(o["value"], A.Variant) and o["value"].name == "Some":
                             outcome = "found"
                         elif o["exit"] in ("fall", "continue"):
                             outcome = "advance"
@@ -332,6 +351,8 @@ def scanner_tables(ctx, res, rule):
         tables += 1
         res.extra.setdefault("scanner_tables", {})[fn] = {k: sorted(v) for k, v in rows.items()}
         # the cursor moves one byte at a time (no byte is skipped unexamined)
+        if sl["form"] == "for":
+            res.holds(rule, fn, "step:for over %s" % T.render(loop["iter"])[:40])
         for n in T.nodes(b["tree"]):
             if n.get("k") == "assign_op":
                 if T.lit_value(n["r"]) == 1 and n["op"] in ("+", "-", "+=", "-="):
@@ -581,66 +602,140 @@ def newline_test(cond, pos):
 
 
 def block_ranges(ctx, res, rule):
-    """BlockIndentRemover: both endpoints of every range are min(_, first non-blank of the line)."""
+    """BlockIndentRemover: both endpoints of every range are min(_, first non-blank of the line).  The range may be built in
+    `format` itself or in a private helper of the same module that `format` calls with the line start."""
     P = ctx.lib
     b = P.fn("BlockIndentRemover::format")
     fn = fshort(b)
     loc = T.loc(b["tree"])
     pushes = [n for n in T.nodes(b["tree"], "mcall") if n["name"] == "push" and "Range<usize>" in (n["recv"].get("ty") or "") + (n["recv"].get("aty") or "")]
     res.floor(rule, "range pushes in BlockIndentRemover::format", len(pushes), 1)
-    # returned vector is the pushed-into vector
-    lets = {s["pat"]["id"]: s for s in T.nodes(b["tree"], "let") if s["pat"]["p"] == "bind"}
+    src_file = (b["tree"].get("sp") or [None])[0]
 
-    def defn(lid):
+    def lets_of(body):
+        return {s["pat"]["id"]: s for s in T.nodes(body["tree"], "let") if s["pat"]["p"] == "bind"}
+
+    def defn_in(lets, lid):
         s = lets.get(lid)
         return T.peel(s["init"]) if s is not None and s.get("init") is not None else None
-    for pu in pushes:
-        arg = T.peel(pu["args"][0])
+
+    # the function that builds the ranges: `format` itself, or the helper called from it that contains the first-non-blank scan
+    def scan_calls(body):
+        return [n for n in T.nodes(body["tree"], "call") if T.short_path(T.callee(n) or "").endswith("find_next_char_pos")]
+    builder, line_start_local = None, None
+    if scan_calls(b):
+        builder = b
+        line_start_local = T.local_of(T.peel_ref(scan_calls(b)[-1]["args"][2]))
+    else:
+        for c in T.nodes(b["tree"], "call"):
+            h = P.bodies.get(T.callee(c) or "")
+            if h is None or (h["tree"].get("sp") or [0])[0] != src_file or not scan_calls(h):
+                continue
+            hl = T.local_of(T.peel_ref(scan_calls(h)[-1]["args"][2]))
+            idx = [k for k, p_ in enumerate(h["params"]) if p_["pat"]["p"] == "bind" and p_["pat"]["id"] == hl]
+            if len(idx) == 1:
+                builder = h
+                line_start_local = T.local_of(T.peel_ref(c["args"][idx[0]]))
+    if builder is None:
+        res.cannot(rule, fn, "first-non-blank-scan", "no call of find_next_char_pos in format or in a helper of its module called with the line start", loc)
+        return
+    bfn = fshort(builder)
+    lets = lets_of(builder)
+    if builder is b:
+        sites = []
+        for pu in pushes:
+            arg = T.peel(pu["args"][0])
+            if arg.get("k") != "struct" or {f["name"] for f in arg["fields"]} != {"start", "end"}:
+                res.cannot(rule, fn, "push:" + T.render(arg), "pushed value is not a range literal", T.loc(pu))
+                continue
+            sites.append((arg, pu))
+    else:
+        sites = [(n, n) for n in T.nodes(builder["tree"], "struct") if {f["name"] for f in n["fields"]} == {"start", "end"} and "Range" in (n["res"].get("path") or n.get("ty") or "")]
+        for pu in pushes:
+            # what is pushed in format must come from the helper (directly or through `if let Some(range) = helper(..)`)
+            arg = T.peel(pu["args"][0])
+            okp = False
+            if arg.get("k") == "call" and T.callee(arg) == builder["def_path"]:
+                okp = True
+            lid = T.local_of(arg)
+            if lid is not None:
+                for n in T.nodes(b["tree"]):
+                    if n.get("k") in ("let_cond", "let") and (n.get("init") or n.get("e")) is not None:
+                        ini = T.peel(n.get("init") or n.get("e"))
+                        if ini.get("k") == "call" and T.callee(ini) == builder["def_path"] and any(x.get("p") == "bind" and x.get("id") == lid for x in T.pat_nodes(n["pat"])):
+                            okp = True
+            if not okp:
+                res.cannot(rule, fn, "push:" + T.render(arg), "pushed value is neither a range literal nor the result of the range-building helper", T.loc(pu))
+        res.floor(rule, "range literals in " + bfn, len(sites), 1)
+    for arg, at in sites:
         site = "push:" + T.render(arg)
-        if arg.get("k") != "struct" or {f["name"] for f in arg["fields"]} != {"start", "end"}:
-            res.cannot(rule, fn, site, "pushed value is not a range literal", T.loc(pu))
-            continue
         ends = {f["name"]: T.peel(f["e"]) for f in arg["fields"]}
         firsts = []
         okk = True
         for nm, e in ends.items():
-            d = defn(T.local_of(e)) if T.local_of(e) is not None else e
+            d = defn_in(lets, T.local_of(e)) if T.local_of(e) is not None else e
             if d is None or d.get("k") != "call" or not (T.cname(d) or "").endswith("cmp::min") or len(d["args"]) != 2:
-                res.add(Finding(rule, fn, site + ":" + nm, "endpoint `%s` of a dedent range is not clamped with min(_, first non-blank of the line): "
-                                "non-blank characters could be deleted" % T.render(e), loc=T.loc(pu)))
+                res.add(Finding(rule, bfn, site + ":" + nm, "endpoint `%s` of a dedent range is not clamped with min(_, first non-blank of the line): "
+                                "non-blank characters could be deleted" % T.render(e), loc=T.loc(at)))
                 okk = False
                 continue
             firsts.append(T.render(d["args"][1]))
-            firsts_node = d["args"][1]
         if not okk:
             continue
         if len(set(firsts)) != 1:
-            res.add(Finding(rule, fn, site, "start and end are clamped by different bounds: %s" % firsts, loc=T.loc(pu)))
+            res.add(Finding(rule, bfn, site, "start and end are clamped by different bounds: %s" % firsts, loc=T.loc(at)))
             continue
-        # the bound is find_next_char_pos(content, bytes, L) where L is the line start used for `start`
-        bl = T.local_of(firsts_node)
-        # bound local comes from `if let Some(indent_pos) = indent_pos` <- find_next_char_pos(content, bytes, current_pos)
-        bound_src = None
-        for n in T.nodes(b["tree"]):
-            if n.get("k") == "call" and (T.short_path(T.callee(n) or "")).endswith("find_next_char_pos"):
-                bound_src = n
-        sd = defn(T.local_of(ends["start"]))
-        line_start = T.render(bound_src["args"][2]) if bound_src is not None else None
+        # the bound is the payload of find_next_char_pos(content, bytes, L) where L is the line start used for `start`
+        bound_src = scan_calls(builder)[-1]
+        bname = firsts[0]
+        bound_ok = False
+        for n in T.nodes(builder["tree"]):
+            src_ = (n.get("init") or n.get("e")) if n.get("k") in ("let", "let_cond") else None
+            if src_ is not None and T.peel(src_).get("k") == "match":
+                # `let x = call(..)?;` is `match Try::branch(call(..)) { Continue(val) => val, Break(r) => return .. }`
+                sc = T.peel(T.peel(src_)["scrut"])
+                if sc.get("k") == "call" and (T.cname(sc) or "").endswith("Try::branch") and T.peel(sc["args"][0]) is bound_src:
+                    src_ = bound_src
+            if src_ is not None and T.peel(src_) is bound_src:
+                if any(x.get("p") == "bind" and x.get("name") == bname for x in T.pat_nodes(n["pat"])):
+                    bound_ok = True
+        # (`if let Some(indent_pos) = indent_pos` where indent_pos = find_next_char_pos(..) binds through a local)
+        for s_ in lets.values():
+            if s_.get("init") is not None and T.peel(s_["init"]) is bound_src:
+                outer = s_["pat"]["id"]
+                for n in T.nodes(builder["tree"]):
+                    if n.get("k") in ("let_cond", "let") and (n.get("init") or n.get("e")) is not None and T.local_of(T.peel(n.get("init") or n.get("e"))) == outer:
+                        if any(x.get("p") == "bind" and x.get("name") == bname for x in T.pat_nodes(n["pat"])):
+                            bound_ok = True
+                if s_["pat"]["name"] == bname and not (s_.get("pty") or "").startswith("std::option::Option"):
+                    bound_ok = True
+        if not bound_ok:
+            res.add(Finding(rule, bfn, site, "the clamp bound `%s` is not the position returned by find_next_char_pos" % bname, loc=T.loc(at)))
+            continue
+        sd = defn_in(lets, T.local_of(ends["start"])) if T.local_of(ends["start"]) is not None else ends["start"]
+        line_start = T.render(bound_src["args"][2])
         start_first = T.render(sd["args"][0]) if sd is not None else ""
-        if bound_src is None or not start_first.startswith("(%s + " % line_start):
-            res.add(Finding(rule, fn, site, "the clamp is not anchored at the same line start as the range (`%s` vs scan from `%s`)" % (start_first, line_start), loc=T.loc(pu)))
+        if not start_first.startswith("(%s + " % line_start):
+            res.add(Finding(rule, bfn, site, "the clamp is not anchored at the same line start as the range (`%s` vs scan from `%s`)" % (start_first, line_start), loc=T.loc(at)))
             continue
-        res.holds(rule, fn, site, "min(%s, first-non-blank(%s))" % (start_first, line_start))
-    # line starts: current_pos is only ever start_byte_pos + 1 (under the newline guard) or (line break + 1)
-    cur = [lid for lid, s in lets.items() if s["pat"]["name"] == "current_pos"]
+        res.holds(rule, bfn, site, "min(%s, first-non-blank(%s))" % (start_first, line_start))
+    # line starts: the line-start variable of `format` begins at start_byte_pos + 1 (under the newline guard); later values are
+    # (line break + 1), which the unit typestate of C01/C07 classifies
+    blets = lets_of(b)
+    if line_start_local is None or line_start_local not in blets:
+        res.cannot(rule, fn, "first-line-start", "the line start handed to the first-non-blank scan is not a local of format", loc)
+        return
     for n in T.nodes(b["tree"], "assign"):
-        if T.local_of(n["l"]) in cur:
-            r = T.peel(n["r"])
-            d = defn(T.local_of(r)) if T.local_of(r) is not None else r
-            rr = T.render(r)
-            # `pos` bound by `Some(pos) => ..` of next_pos = find_next_line_break_pos(..).map(|v| v + 1)
-            res.holds(rule, fn, "line-start-assign:" + rr)
-    init = defn(cur[0]) if cur else None
+        if T.local_of(n["l"]) == line_start_local:
+            res.holds(rule, fn, "line-start-assign:" + T.render(n["r"]))
+    init = defn_in(blets, line_start_local)
+    hops = 0
+    while init is not None and T.local_of(init) is not None and hops < 4:
+        s_ = blets.get(T.local_of(init))
+        if s_ is None or "Mut" in s_["pat"].get("mode", ""):
+            break
+        init = defn_in(blets, T.local_of(init))
+        hops += 1
     if init is not None and T.render(init) == "(start_byte_pos + 1)":
         # requires the early return unless bytes[start_byte_pos] == '\n'
         guard = False
@@ -655,6 +750,8 @@ def block_ranges(ctx, res, rule):
             res.add(Finding(rule, fn, "first-line-start", "`start_byte_pos + 1` is used as a line start without establishing that the seam byte is the line break", loc=loc))
     elif init is not None:
         res.add(Finding(rule, fn, "first-line-start", "first line start is `%s`, expected the byte after the seam line break" % T.render(init), loc=loc))
+    else:
+        res.cannot(rule, fn, "first-line-start", "initial value of the line-start variable not found", loc)
 
 
 # ------------------------------------------------------------------------------------------------ byte 0 (C12.R3 / C16.R3)
@@ -665,11 +762,49 @@ def byte0_examined(ctx, res, rule):
     b = P.fn("find_prev_line_break_pos")
     cb = P.fn("line_break_pos_finder::check")
     fn = fshort(b)
-    loops = [n for n in T.nodes(b["tree"], "loop")]
-    if len(loops) != 1:
+    sl = scan_loop(b)
+    if sl is None:
         res.cannot(rule, fn, "loop", "expected one scan loop", T.loc(b["tree"]))
         return
-    loop = loops[0]
+    loop = sl["node"]
+    if sl["form"] == "for":
+        # `for cursor in (0..hi).rev()`: index 0 is visited iff the range starts at the literal 0; every path through the
+        # body must examine the loop variable before it leaves
+        if not sl["rev"]:
+            res.add(Finding(rule, fn, "byte0-examined", "the backward scan iterates a range that is not reversed", loc=T.loc(loop)))
+            return
+        if sl["lo"] is None or T.lit_value(sl["lo"]) != 0:
+            res.add(Finding(rule, fn, "byte0-examined", "the backward scan iterates `%s`, which does not start at index 0: a line break at the very "
+                            "start of the file is never found" % T.render(loop["iter"]), loc=T.loc(loop)))
+            return
+        npaths = nbad = 0
+        for cls in (A.Lit(10, "byte"), A.Lit(32, "byte"), A.CharClass(None, excluded={10, 32, 9})):
+            for pause in (True, False):
+                examined = []
+                I = A.Interp(P, inline=[cb["def_path"]], models=_byte_models(cls, True, examined))
+                I.lazy_locals = True
+
+                def run_for(J):
+                    env = {}
+                    for p in b["params"]:
+                        if p["pat"]["p"] == "bind":
+                            env[p["pat"]["id"]] = A.Lit(pause) if p["pat"]["name"] == "pause_on_char" else A.Sym(p["pat"]["name"], p["ty"])
+                    env[sl["var"]["id"]] = A.Sym(sl["var"]["name"], "usize")
+                    return J.ev(loop["body"], env)
+                try:
+                    outs = I.explore(run_for)
+                except A.Cannot as e:
+                    res.cannot(rule, fn, "loop-body", str(e), T.loc(loop))
+                    return
+                for o in outs:
+                    npaths += 1
+                    if not any(e[0] == "examine" and e[1] == sl["var"]["name"] for e in o["effects"]):
+                        nbad += 1
+        if nbad or not npaths:
+            res.add(Finding(rule, fn, "byte0-examined", "the backward scan can leave an iteration without examining the byte it stands on (%d of %d paths)" % (nbad, npaths), loc=T.loc(loop)))
+        else:
+            res.holds(rule, fn, "byte0-examined", "for over (0..hi).rev(): all %d body paths examine the loop variable" % npaths)
+        return
     paths = 0
     bad = 0
     for cls in (A.Lit(10, "byte"), A.Lit(32, "byte"), A.CharClass(None, excluded={10, 32, 9})):
